@@ -49,6 +49,23 @@ instance (a b : Rat) : Decidable (Horizon a b) := by unfold Horizon; infer_insta
 instance (a : Rat) : Decidable (Whole a) := by unfold Whole; infer_instance
 instance (a : Rat) : Decidable (AtLeastOne a) := by unfold AtLeastOne; infer_instance
 
+/-- counts (thresholds of a CDF, FIRM category thresholds): at least `k` -/
+def AtLeast (k x : Rat) : Prop := k ≤ x
+/-- steps down a column of a warning scaling matrix: not positive -/
+def Nonpos (x : Rat) : Prop := x ≤ 0
+/-- enumerated option: exactly one of the documented strings -/
+def OneOf (opts : List String) (s : String) : Prop := s ∈ opts
+/-- the four CDF fill methods of `fill_cdf` / `add_thresholds` / `crps_cdf` -/
+def fillMethods : List String := ["linear", "step", "forward", "backward"]
+/-- `fill_cdf` (also reached through `add_thresholds`): "`min_nonnan` must be at least 2 for the "linear" method, and at
+    least 1 for the other methods" -/
+def MinNonnan (method : String) (m : Rat) : Prop := (if method = "linear" then 2 else 1) ≤ m
+
+instance (x : Rat) : Decidable (Nonpos x) := by unfold Nonpos; infer_instance
+instance (k x : Rat) : Decidable (AtLeast k x) := by unfold AtLeast; infer_instance
+instance (o : List String) (s : String) : Decidable (OneOf o s) := by unfold OneOf; infer_instance
+instance (s : String) (m : Rat) : Decidable (MinNonnan s m) := by unfold MinNonnan; infer_instance
+
 /-- trapezoidal threshold weight with FINITE end points a ≤ … : positive on (a, d), one on [b, c] -/
 def Trapezoid (a b c d : Rat) : Prop := a < b ∧ b < c ∧ c < d
 instance (a b c d : Rat) : Decidable (Trapezoid a b c d) := by unfold Trapezoid; infer_instance
@@ -125,6 +142,40 @@ def domains : List (String × (List (Option Fl) → Option Bool)) := [
   ("risk_prob_thresholds", bin fun mn mx => decide (Open01Range mn mx)),
   ("risk_matrix_prob_thresholds", bin fun mn mx => decide (Open01Range mn mx)),
   ("risk_scaling_prob_thresholds", bin fun mn mx => decide (Open01Range mn mx)),
-  ("risk_assessment_weights", un fun x => decide (Positive x))]
+  ("risk_assessment_weights", un fun x => decide (Positive x)),
+  -- added after the guard-site audit (notes/C20.md)
+  ("cdf_decreasing_tolerance", un fun x => decide (Nonneg x)),
+  ("crps_cdf_threshold_count", un fun x => decide (AtLeast 2 x)),
+  ("brier_fcst_range_dataset", bin fun mx mn => decide (Closed01Range mx mn)),
+  ("cdf_values_range", bin fun mx mn => decide (Closed01Range mx mn)),
+  ("risk_scaling_min", un fun x => decide (Nonneg x)),
+  ("risk_scaling_rows", un fun x => decide (Nonneg x)),
+  ("risk_scaling_columns", un fun x => decide (Nonpos x)),
+  ("risk_assessment_weights_count", bin fun n mx => decide (NotAbove mx n)),
+  ("firm_threshold_count", un fun x => decide (AtLeast 1 x))]
+
+private def enum (opts : List String) : List String → List (Option Fl) → Option Bool
+  | [s], [] => some (decide (OneOf opts s))
+  | _, _ => none
+
+/-- guards with an enumerated (string) parameter: name ↦ strings ↦ numbers ↦ "is inside the documented domain" -/
+def domainsS : List (String × (List String → List (Option Fl) → Option Bool)) := [
+  ("firm_threshold_assignment", enum ["upper", "lower"]),
+  ("fill_cdf_method", enum fillMethods),
+  ("add_thresholds_fill_method", enum ("none" :: fillMethods)),
+  ("fill_cdf_min_nonnan", fun ss xs => match ss, xs with
+      | [m], [x] => (r x).map fun q => decide (MinNonnan m q)
+      | _, _ => none),
+  ("crps_cdf_fcst_fill_method", enum fillMethods),
+  ("crps_cdf_weight_fill_method", fun ss xs => match ss, xs with
+      | [m], [w] => some (!truthy w || decide (OneOf fillMethods m))
+      | _, _ => none),
+  ("crps_cdf_integration_method", enum ["exact", "trapz"]),
+  ("crps_cdf_brier_fcst_fill_method", enum fillMethods),
+  ("crps_ensemble_method", enum ["ecdf", "fair"]),
+  ("tail_tw_crps_tail", enum ["upper", "lower"]),
+  ("dm_method", enum ["HLN", "HG"]),
+  ("dm_statistic_distribution", enum ["normal", "t"]),
+  ("risk_threshold_assignment", enum ["upper", "lower"])]
 
 end SV.Spec.Guards
